@@ -862,6 +862,24 @@ class Normalizer:
                                 or any(isinstance(x, (ast.Lambda, ast.ListComp, ast.GeneratorExp, ast.SetComp, ast.DictComp)) for x in ast.walk(fn.body)):
                             return n
                         var, elt = a_.args[0].arg, fn.body
+                    elif isinstance(fn, ast.Attribute) and fn.attr == "__getitem__" and len(seqs) == 1:
+                        counter[0] += 1
+                        var = f"_m{counter[0]}_{n.lineno}"
+                        elt = ast.Subscript(value=fn.value, slice=ast.Name(var, ast.Load()), ctx=ast.Load())       # map(xs.__getitem__, ids) is (xs[i] for i in ids)
+                    elif isinstance(fn, ast.Call) and isinstance(fn.func, ast.Attribute) and isinstance(fn.func.value, ast.Name) and fn.func.value.id == "operator" \
+                            and fn.func.attr in ("methodcaller", "itemgetter", "attrgetter") and len(fn.args) == 1 and not fn.keywords and len(seqs) == 1 \
+                            and isinstance(fn.args[0], ast.Constant):
+                        counter[0] += 1
+                        var = f"_m{counter[0]}_{n.lineno}"
+                        x_ = ast.Name(var, ast.Load())
+                        if fn.func.attr == "itemgetter":
+                            elt = ast.Subscript(value=x_, slice=fn.args[0], ctx=ast.Load())
+                        elif not (isinstance(fn.args[0].value, str) and fn.args[0].value.isidentifier()):
+                            return n
+                        elif fn.func.attr == "attrgetter":
+                            elt = ast.Attribute(value=x_, attr=fn.args[0].value, ctx=ast.Load())
+                        else:
+                            elt = ast.Call(func=ast.Attribute(value=x_, attr=fn.args[0].value, ctx=ast.Load()), args=[], keywords=[])
                     elif isinstance(fn, (ast.Name, ast.Attribute)):
                         counter[0] += 1
                         var = f"_m{counter[0]}_{n.lineno}"
@@ -1040,6 +1058,71 @@ class Normalizer:
                 it.keywords = []
                 self.log.append(f"{f.qualname}:{st.lineno} <- enumerate(start={start.value}) counted from zero")
 
+    def _canonical_unpack_targets(self):
+        """`(a, obj.f) = E` (a tuple target with an attribute or subscript element, E not a tuple literal) is `t = E; a = t[0];
+        obj.f = t[1]`: the right-hand side is evaluated once, the elements are assigned left to right."""
+        for f in self.prog.functions.values():
+            for n in ast.walk(f.node):
+                for fld in ("body", "orelse", "finalbody"):
+                    lst = getattr(n, fld, None)
+                    if not (isinstance(lst, list) and lst and isinstance(lst[0], ast.stmt)):
+                        continue
+                    out, changed = [], False
+                    for st in lst:
+                        if isinstance(st, ast.Assign) and len(st.targets) == 1 and isinstance(st.targets[0], (ast.Tuple, ast.List)) \
+                                and any(isinstance(e, (ast.Attribute, ast.Subscript)) for e in st.targets[0].elts) \
+                                and not any(isinstance(e, (ast.Starred, ast.Tuple, ast.List)) for e in st.targets[0].elts) \
+                                and not isinstance(st.value, (ast.Tuple, ast.List)):
+                            tmp = f"_u{st.lineno}_{st.col_offset}"
+                            out.append(ast.fix_missing_locations(ast.copy_location(ast.Assign([ast.Name(tmp, ast.Store())], st.value), st)))
+                            for k, e in enumerate(st.targets[0].elts):
+                                val = ast.Subscript(value=ast.Name(tmp, ast.Load()), slice=ast.Constant(k), ctx=ast.Load())
+                                out.append(ast.fix_missing_locations(ast.copy_location(ast.Assign([e], val), st)))
+                            changed = True
+                            self.log.append(f"{f.qualname}:{st.lineno} <- tuple target with an attribute element written as indexed assignments")
+                        else:
+                            out.append(st)
+                    if changed:
+                        lst[:] = out
+
+    def _canonical_enumerated_pairs(self):
+        """`for (i, (a, b)) in enumerate(L)` over a plain local name L is `for i in range(len(L))` with a, b read as L[i][0], L[i][1]
+        (L, i, a, b not rebound in the body, the targets not read after the loop)."""
+        for f in self.prog.functions.values():
+            for st in [n for n in ast.walk(f.node) if isinstance(n, ast.For)]:
+                it, tg = st.iter, st.target
+                if not (isinstance(it, ast.Call) and isinstance(it.func, ast.Name) and it.func.id == "enumerate" and len(it.args) == 1 and not it.keywords
+                        and isinstance(it.args[0], ast.Name) and isinstance(tg, (ast.Tuple, ast.List)) and len(tg.elts) == 2 and isinstance(tg.elts[0], ast.Name)
+                        and isinstance(tg.elts[1], (ast.Tuple, ast.List)) and all(isinstance(e, ast.Name) for e in tg.elts[1].elts) and not st.orelse):
+                    continue
+                iname, lname = tg.elts[0].id, it.args[0].id
+                parts = [e.id for e in tg.elts[1].elts]
+                body_nodes = [x for b_ in st.body for x in ast.walk(b_)]
+                stores = {x.id for x in body_nodes if isinstance(x, ast.Name) and not isinstance(x.ctx, ast.Load)}
+                if stores & ({iname, lname} | set(parts)) or any(isinstance(x, (ast.FunctionDef, ast.Lambda, ast.ClassDef)) for x in body_nodes):
+                    continue
+                # the list itself must not be mutated in the body either
+                if any(isinstance(x, ast.Call) and isinstance(x.func, ast.Attribute) and isinstance(x.func.value, ast.Name) and x.func.value.id == lname for x in body_nodes) or \
+                        any(isinstance(x, ast.Subscript) and not isinstance(x.ctx, ast.Load) and _root(x) == lname for x in body_nodes):
+                    continue
+                comp_scoped = set()
+                for c_ in ast.walk(f.node):
+                    if isinstance(c_, (ast.ListComp, ast.SetComp, ast.DictComp, ast.GeneratorExp)):
+                        bound = {x.id for g_ in c_.generators for x in ast.walk(g_.target) if isinstance(x, ast.Name)}
+                        comp_scoped |= {id(x) for x in ast.walk(c_) if isinstance(x, ast.Name) and x.id in bound}
+                outside = [x for x in ast.walk(f.node) if isinstance(x, ast.Name) and x.id in [iname] + parts and isinstance(x.ctx, ast.Load)
+                           and not any(x is y for y in body_nodes) and id(x) not in comp_scoped]
+                if outside and not (st in f.node.body and not any(_read_before_rebound(f.node.body[f.node.body.index(st) + 1:], v) for v in [iname] + parts)
+                                    and not any(x.lineno < st.lineno for x in outside)):
+                    continue
+                row = lambda: ast.Subscript(value=ast.Name(lname, ast.Load()), slice=ast.Name(iname, ast.Load()), ctx=ast.Load())
+                mapping = {p_: ast.Subscript(value=row(), slice=ast.Constant(k), ctx=ast.Load()) for k, p_ in enumerate(parts)}
+                st.body = [ast.fix_missing_locations(_Renamer(mapping).visit(b_)) for b_ in st.body]
+                st.iter = ast.copy_location(ast.Call(ast.Name("range", ast.Load()), [ast.Call(ast.Name("len", ast.Load()), [ast.Name(lname, ast.Load())], [])], []), it)
+                st.target = ast.copy_location(ast.Name(iname, ast.Store()), tg)
+                ast.fix_missing_locations(st)
+                self.log.append(f"{f.qualname}:{st.lineno} <- enumerate with a destructuring target written as a counting loop")
+
     def _canonical_continues(self):
         """Inside a loop body `if c: A; continue` followed by REST is `if c: A else: REST` (when the `if` has no else and its body ends
         with the `continue`): the same iterations run the same statements, written without a jump."""
@@ -1114,12 +1197,14 @@ class Normalizer:
 
     def run(self):
         self._canonical_annotated_assignments()
+        self._canonical_unpack_targets()
         self._canonical_asserts()
         self._canonical_partials()
-        self._canonical_local_lambdas()
         self._canonical_maps()
+        self._canonical_local_lambdas()
         self._canonical_literal_loops()
         self._canonical_enumerate_start()
+        self._canonical_enumerated_pairs()
         self._canonical_enumerated_slices()
         self._canonical_running_totals()
         self._canonical_star_args()
